@@ -2,6 +2,14 @@ module gnoverif
 
 go 1.25.9
 
-require github.com/gnolang/gno v0.0.0
+require (
+	github.com/btcsuite/btcd/btcutil v1.2.0
+	github.com/gnolang/gno v0.0.0
+)
+
+require (
+	github.com/valyala/bytebufferpool v1.0.0 // indirect
+	google.golang.org/protobuf v1.36.11 // indirect
+)
 
 replace github.com/gnolang/gno => /repo
